@@ -24,6 +24,7 @@ FUNCTIONS = ["redun.backends.db.RedunBackendDb.check_cache (ULTIMATE)", "RedunBa
 ASSUMPTIONS = [
     "workflow shapes: outer(shallow) -> mid -> inner; the same with mid run without provenance (prov=False); outer(shallow) -> two "
     "different parents that both call inner with the same argument; two shallow parents that both call the same non-leaf task; "
+    "a shallow task whose non-leaf child fails (while inner has version 1), collected by catch_all and recovered; "
     "each task returns its version stamp around its child's result",
     "histories of <= 4 (quick) / 5 (thorough) steps from: run, edit inner / mid / outer (new version), revert inner, transfer all "
     "records to a fresh repository and continue there",
@@ -35,7 +36,7 @@ ASSUMPTIONS = [
 
 NS = "vp_c03"
 STEPS = ["run", "edit_inner", "edit_mid", "edit_outer", "revert_inner", "transfer"]
-SHAPES = ["chain", "noprov_mid", "shared_inner", "shared_nonleaf"]
+SHAPES = ["chain", "noprov_mid", "shared_inner", "shared_nonleaf", "caught_failure"]
 _N = [0]
 
 
@@ -71,6 +72,28 @@ def _define(shape, v, uid):
         return ["n%d" % v["mid"], shared_t(x)]
     pb_t = task(name="pb", namespace=ns, version=str(v["mid"]), check_valid="shallow")(pb)
 
+    if shape == "caught_failure":
+        # a non-leaf job beneath the shallow task fails (while inner has version 1), the failure is collected by catch_all and
+        # recovered; the tasks that ran beneath the failed job still belong to the shallow task's recorded subtree
+        from redun.scheduler import catch_all
+
+        def validate(s):
+            if s.startswith("i1("):
+                raise ValueError("bad " + s)
+            return ["val", s]
+        validate_t = task(name="validate", namespace=ns, version="1")(validate)
+
+        def fmid(x):
+            return ["m%d" % v["mid"], validate_t(inner_t(x))]
+        fmid_t = task(name="fmid", namespace=ns, version=str(v["mid"]))(fmid)
+
+        def recover(values):
+            return ["rec", ["failed" if isinstance(val, Exception) else val for val in values]]
+        recover_t = task(name="recover", namespace=ns, version="1")(recover)
+
+        def outer(x):
+            return ["o%d" % v["outer"], catch_all([fmid_t(x)], ValueError, recover_t)]
+        return task(name="outer", namespace=ns, version=str(v["outer"]), check_valid="shallow")(outer)
     if shape == "shared_nonleaf":
         # two shallow parents reach the same non-leaf call shared(x) -> inner(x)
         def outer(x):
@@ -90,6 +113,10 @@ def _define(shape, v, uid):
 
 def _expected(shape, v, x):
     i = "i%d(%s)" % (v["inner"], x)
+    if shape == "caught_failure":
+        if v["inner"] == 1:
+            return ["o%d" % v["outer"], ["rec", ["failed"]]]
+        return ["o%d" % v["outer"], [["m%d" % v["mid"], ["val", i]]]]
     if shape == "shared_nonleaf":
         return ["o%d" % v["outer"], ["m%d" % v["mid"], ["s", i]], ["n%d" % v["mid"], ["s", i]]]
     if shape == "shared_inner":
@@ -216,8 +243,8 @@ def c03_kernel(k: int) -> bool:
 
 
 _NS = len(STEPS)
-_Q = [(sh, 2, (a,)) for sh in range(4) for a in (1, 2, 3)] + [(sh, 3, (1, 0)) for sh in range(4)] + [(0, 2, (5,))]
-_T = [(sh, 3, (a,)) for sh in range(4) for a in range(_NS)] + [(sh, 4, (a, b)) for sh in range(4) for a in (1, 2) for b in (0, 4)]
+_Q = [(sh, 2, (a,)) for sh in range(5) for a in (1, 2, 3)] + [(sh, 3, (1, 0)) for sh in range(5)] + [(0, 2, (5,))]
+_T = [(sh, 3, (a,)) for sh in range(5) for a in range(_NS)] + [(sh, 4, (a, b)) for sh in range(5) for a in (1, 2) for b in (0, 4)]
 CONDITIONS = [
     Condition(c03_kernel, slices=[(a, b) for a in (0, 1, 2) for b in (0, 1, 2, 3, 4) if a + b <= 3] + [(1, 3)],
               thorough_slices=[(a, b) for a in (0, 1, 2) for b in (0, 1, 2, 3, 4)], timeout=250, thorough_timeout=1800,
